@@ -108,8 +108,13 @@ func run(dir string, extraEnv []string, name string, args ...string) ([]byte, er
 	return cmd.CombinedOutput()
 }
 
+var scratchDir string
+
 func fatal(format string, a ...any) {
 	fmt.Fprintf(os.Stderr, "check: "+format+"\n", a...)
+	if scratchDir != "" {
+		os.RemoveAll(scratchDir)
+	}
 	os.Exit(2)
 }
 
@@ -148,6 +153,7 @@ func main() {
 	if err != nil {
 		fatal("%v", err)
 	}
+	scratchDir = scratch
 	defer os.RemoveAll(scratch)
 	start := time.Now()
 	if buildOnly {
@@ -455,6 +461,9 @@ func runMC(s *part, root, scratch, tier string, passthru []string) *PartResult {
 	workers := runtime.NumCPU()
 	// soft per-scenario budget for optional deeper levels (iterative deepening)
 	soft := time.Duration(float64(budget) * 0.7 * float64(workers) / float64(total))
+	if soft > budget/3 {
+		soft = budget / 3 // few scenarios: optional levels must still end before the part's deadline
+	}
 	chunk := total / (workers * 6)
 	if chunk < 1 {
 		chunk = 1
@@ -562,6 +571,9 @@ func mergeMC(s *part, root, tier string, results []hx.ShardResult, total, notSta
 	ran, complete := 0, 0
 	minBound := -2
 	boundHist := map[string]int{}
+	known := evid.Known(s.ID)
+	perKey := map[string]int{}
+	firstReplay := map[string]string{}
 	var capped []string
 	var samples []any
 	var findings []evid.Finding
@@ -608,6 +620,13 @@ func mergeMC(s *part, root, tier string, results []hx.ShardResult, total, notSta
 				})
 			}
 			for vi, v := range st.Violations {
+				key := findingKey(r.Class, v.Msg)
+				perKey[key]++
+				if _, isKnown := known[key]; isKnown && perKey[key] > 3 {
+					// a listed finding: three replay artefacts are enough
+					findings = append(findings, evid.Finding{Key: key, Msg: "(further case of a listed finding) scenario " + r.Name, Replay: firstReplay[key]})
+					continue
+				}
 				rf := hx.ReplayFile{Property: s.ID, Part: s.Name, Scenario: r.Name, Class: r.Class, Choices: v.Choices, Msg: v.Msg, Detail: v.Detail, Logs: v.Logs, Tier: tier}
 				rname := r.Name
 				if vi > 0 {
@@ -618,7 +637,10 @@ func mergeMC(s *part, root, tier string, results []hx.ShardResult, total, notSta
 				if !v.Stable {
 					fatal("nondeterministic violation (machinery fault, not reported as a violation):\n%s", msg)
 				}
-				findings = append(findings, evid.Finding{Key: findingKey(r.Class, v.Msg), Msg: msg, Replay: path})
+				if firstReplay[key] == "" {
+					firstReplay[key] = path
+				}
+				findings = append(findings, evid.Finding{Key: key, Msg: msg, Replay: path})
 			}
 		}
 	}
